@@ -17,7 +17,7 @@ import numpy as np
 import common as C
 import implutil as U
 
-STATIC = ["Model/Validate.vo"]
+STATIC = ["Model/Validate.vo", "Model/IFMR.vo"]
 IMPORTS = "From SSP Require Import Model.Validate."
 
 BASE = dict(m_breaks=[0.1, 0.5, 1.0, 100], a_slopes=[-0.5, -1.3, -2.5], nbins=[2, 2, 6], FeH=-1.0, tout=[3000.0], esc_rate=0, N0=1e5)
@@ -51,8 +51,14 @@ def mutate(rng):
             kw["WD_IFMR_method"] = rng.choice(["mist", "kalirai"])
         elif f == "analytic":
             kw["BH_IFMR_method"] = "linear"
-            kw["BH_IFMR_kwargs"] = rng.choice([dict(slope=1.5, scale=0.7, m_lower=19), dict(slope=0.4, scale=-30.0, m_lower=19),
-                                               dict(slope=-0.1, scale=0.0, m_lower=19)])
+            if rng.random() < 0.5:
+                kw["BH_IFMR_kwargs"] = rng.choice([dict(slope=1.5, scale=0.7, m_lower=19), dict(slope=0.4, scale=-30.0, m_lower=19),
+                                                   dict(slope=-0.1, scale=0.0, m_lower=19)])
+            else:
+                # only the UPPER end of a segment leaves (0, mi]: 6e-4 m^3 is below the 1:1 line at 22 but above it at 45
+                kw["BH_IFMR_method"] = "brokenpowerlaw"
+                kw["BH_IFMR_kwargs"] = rng.choice([dict(m_breaks=[20, 22, 45, 100]), dict(m_breaks=[20, 22, 36, 100], slopes=[1, 6e-4, 1.2]),
+                                                   dict(m_breaks=[20, 22, 36, 100], scales=[0, 0, 60])])
         elif f == "overlap":
             kw["BH_IFMR_method"] = "linear"
             kw["BH_IFMR_kwargs"] = dict(slope=0.4, scale=0.7, m_lower=rng.choice([2.0, 3.0, 5.0]))
@@ -179,6 +185,38 @@ def run(chk):
         if mv != out:
             dis.append(dict(input=case, impl=out, model=mv))
     chk.correspondence("validate_fbh / validate_imf vs EvolvedMFWithBH / PowerLawIMF", len(meta), dis)
+    # ---- the end-point validation of analytic prescriptions, directly -----------------------------------
+    from ssptools.ifmr import _powerlaw_predictor
+    pex, pmeta = [], []
+    for _ in range(150 if chk.tier == "quick" else 1500):
+        ex = rng.choice([1.0, 1.0, 3.0, 2.0, 0.5])
+        ml = rng.choice([0.0, 5.0, 19.0, 20.0, -1.0])
+        mu = rng.choice([ml + rng.uniform(0.5, 80), 150.0, ml - 1.0])
+        sl = rng.choice([0.4, 1.0, 1.5, 3e-5, 6e-4, -0.1, rng.uniform(0, 2)])
+        sc = rng.choice([0.0, 0.7, 14.0, -30.0, rng.uniform(-5, 20)])
+        try:
+            _powerlaw_predictor(ex, sl, sc, m_lower=ml, m_upper=mu)
+            out = ("Ok",)
+        except ValueError:
+            out = ("Err", "ValueError")
+        except Exception as e:  # noqa
+            out = ("Err", type(e).__name__)
+        case = dict(exponent=ex, slope=sl, scale=sc, m_lower=ml, m_upper=mu)
+        # oracle: an accepted relation must be inside (0, mi] at both ends
+        if out[0] == "Ok" and ml >= 0:
+            for m_ in (ml, mu):
+                v = sl * m_ ** ex + sc if m_ > 0 or ex > 0 else float("nan")
+                if m_ >= 0 and not (0 < v <= m_ * (1 + 1e-12)):
+                    chk.fail("analytic IFMR parameters leaving (0, mi] at an end point raise ValueError", case, dict(at=m_, mf=v))
+        pex.append("Model.IFMR.powerlaw_valid (O:=F_ops) %s %s %s %s %s" % (C.fl(ex), C.fl(sl), C.fl(sc), C.fl(ml), C.fl(mu)))
+        pmeta.append((case, out))
+    pv = C.eval_cases("C17p", "From SSP Require Import Model.IFMR.", "", pex)
+    dis = []
+    for (case, out), v in zip(pmeta, pv):
+        mv = ("Ok",) if (isinstance(v, tuple) and v[1] == "Ok") else ("Err", v[2])
+        if mv != out and not (case["m_lower"] <= 0):      # 0 ** exponent / negative bases: numpy's pow conventions are not modelled
+            dis.append(dict(input=case, impl=out, model=mv))
+    chk.correspondence("powerlaw_valid (end-point validation) vs ifmr._powerlaw_predictor", len(pmeta), dis)
     # over-ejection and kicks over budget are covered by C07 (dyn_eject_too_much, bh_post_kicks_exceed)
     # ---- convergence flag -------------------------------------------------------------------
     from scipy.integrate import ode as real_ode
